@@ -135,6 +135,12 @@ LeastSquares<RealType>::setEstimateSize(const size_t & estimateSize)
   JtJ_ = Matrix::Zero(estimateSize_, estimateSize_);
   inverseJtJ_ = Matrix::Zero(estimateSize_, estimateSize_);
   JtY_ = Vector::Zero(estimateSize_);
+
+  // The design matrix keeps its rows (data capacity) but must follow the
+  // number of estimated parameters when a used solver is re-configured.
+  if (J_.cols() != estimateSize_) {
+    J_.resize(J_.rows(), estimateSize_);
+  }
 }
 
 //-----------------------------------------------------------------------------
